@@ -105,7 +105,7 @@ def expectedKernel (d ax : ℕ) : C.KernelWiring :=
 
 theorem C02_wiring_kernels :
     C.kernels = (List.range 5).flatMap (fun d => (List.range (d+1)).map (fun ax => expectedKernel (d+1) ax))
-    ∧ C.abcShapeOk = true ∧ C.dfactorShapeOk = true ∧ C.xIntShapeOk = true ∧ C.dxShapeOk = true := by
+    ∧ C.abcShapeOk = true ∧ C.dfactorShapeOk = true ∧ C.xIntShapeOk = true ∧ C.dxShapeOk = true ∧ C.tridiagShapeOk = true := by
   decide
 
 /-- wiring of the Python drivers: `one_pop…five_pops` call kernel (d, ax) with (φ, grids…, ν_ax, m_{ax,·}, γ_ax, h_ax, this_dt, delj switch)
